@@ -1,32 +1,46 @@
 ---------------------------------- MODULE Redact ----------------------------------
 (* C35 -- sensitive claim values never reach access logs, at any nesting depth.
 
-   A claims object is a tree.  What decides the fate of a leaf value is the sequence of keys on its path, so the
-   trees enumerated here are a spine of containers, depth 1..MaxDepth, each container optionally carrying one
-   sibling leaf (branching <= 2):
+   A claims object is a tree.  What decides the fate of a leaf value is the sequence of keys on the paths that
+   lead to it, so the trees enumerated here are a spine of containers, depth 1..MaxDepth, each container optionally
+   carrying one sibling leaf (branching <= 2):
 
         levels[j] = [kind |-> "obj",  key |-> class of the key under which the next level (or the final leaf) sits,
                                       sib |-> "none" | "sx" | "n"      an extra leaf entry with a sensitive / neutral key]
                   | [kind |-> "list", key |-> "-",
                                       sib |-> "none" | "item"          an extra leaf item next to the spine item]
         levels[1].kind = "obj"        (the claims object itself is a mapping)
+        alias \in 0..2                a = 1 or 2: the container of level a+1 is referenced a SECOND time, under a neutral
+                                      key of the (object) container of level a -- the same Python object twice (claims
+                                      assembled from shared sub-objects; a walker with a "seen" guard must still redact
+                                      both occurrences); a = 1 shares across two top-level claims, a = 2 inside one
+
+   plus a few deeper spines (DeepCases, depth MaxDepth+1 .. DeepDepth, neutral all the way down to one sensitive key):
+   "at any nesting depth" has no bound in the statement.
 
    key classes:  "sx" sensitive, exact name (email, token, given_name, ...)
                  "ss" sensitive name as a substring (access_token, work_email, ...)
                  "sc" case variant of either (EMAIL, Api_Key, ...)
                  "n"  neutral (sub, scope, ctx, ...)
 
-   Leaves:  "leaf" (end of the spine), "sib1".."sib4" (sibling leaf in the container of level j).
-   Keys:    "k1".."k4" (spine key of level j), "s1".."s4" (sibling key of level j).
+   Leaves:  "leaf" (end of the spine), "sib<j>" (sibling leaf in the container of level j).
+   Keys:    "k<j>" (spine key of level j), "s<j>" (sibling key of level j).
+
+   How a tree reaches the log is a second, independent dimension (Configs): which redactor is installed, the level
+   of the access logger (the emitter has DEBUG-only branches), the Python flavour of the containers (dict/list or
+   a non-dict Mapping / tuple -- claims are Python objects, not JSON text), whether the context is authenticated
+   (allow-mode gates attach claims to unauthenticated contexts), and the formatter (plain JSON, access-log formatter,
+   access-log formatter with a byte cap small enough to shed fields).
 
    Intended design: the value of a claim whose NAME is sensitive is never logged -- whatever that value is (a
    string, a number, an object, a list) and however deep the claim sits; the key stays visible with a redacted
-   value.  The code's known deviation is named by  Dev_TopLevelOnly  (redaction looks at the top-level keys
-   only); Expected / Conforms always describe the intended design.                                            *)
-EXTENDS Naturals, Sequences, FiniteSets
+   value.  Dev_TopLevelOnly names the deviation the code had when this check was built (redaction looked at the
+   top-level keys only; fixed since); Expected / Conforms always describe the intended design.                  *)
+EXTENDS Naturals, Sequences, FiniteSets, TLC
 
 CONSTANTS MaxDepth,
-          Dev_TopLevelOnly     \* known deviation of redact_claims: only top-level claim names are looked at (FALSE = intended)
+          DeepDepth,           \* deeper single-path spines up to this depth (>= MaxDepth; = MaxDepth: none)
+          Dev_TopLevelOnly     \* historical deviation of redact_claims: only top-level claim names are looked at (FALSE = intended)
 
 KeyClasses == {"sx", "ss", "sc", "n"}
 Sens(k) == k \in {"sx", "ss", "sc"}
@@ -38,29 +52,54 @@ Levels == ObjLevels \cup ListLevels
 RECURSIVE Spines(_)
 Spines(d) == IF d = 1 THEN {<<l>> : l \in ObjLevels}
              ELSE LET prev == Spines(d - 1) IN prev \cup {Append(p, l) : p \in {q \in prev : Len(q) = d - 1}, l \in Levels}
-Cases == {[levels |-> p] : p \in Spines(MaxDepth)}
+
+Plain(kind) == IF kind = "obj" THEN [kind |-> "obj", key |-> "n", sib |-> "none"] ELSE [kind |-> "list", key |-> "-", sib |-> "none"]
+RECURSIVE DeepSeq(_, _, _, _)
+DeepSeq(j, d, mixed, last) == IF j > d THEN <<>>
+                              ELSE <<IF j = d THEN [kind |-> "obj", key |-> last, sib |-> "none"]
+                                     ELSE IF mixed /\ j % 2 = 0 THEN Plain("list") ELSE Plain("obj")>> \o DeepSeq(j + 1, d, mixed, last)
+DeepCases == {[levels |-> DeepSeq(1, d, m, k), alias |-> 0] : d \in (MaxDepth + 1)..DeepDepth, m \in BOOLEAN, k \in {"sx", "ss", "sc"}}
+
+AliasOK(c) == c.alias = 0 \/ (/\ Len(c.levels) >= c.alias + 1 /\ c.levels[c.alias].kind = "obj"
+                             /\ (c.alias = 2 => c.levels[1].sib = "none"))
+Cases == {c \in {[levels |-> p, alias |-> a] : p \in Spines(MaxDepth), a \in 0..2} : AliasOK(c)}
+         \cup DeepCases
+
+\* how a tree is logged
+Configs == [mode : {"default", "raising"}, level : {"info", "debug"}, flavour : {"plain", "alt"}, auth : BOOLEAN,
+            fmt : {"json", "access", "capped"}]
+ConfigExpected(g) == g.mode
 
 \* ------------------------------------------------------------------ the oracle (intended design)
 SpineSensAt(L, j) == L[j].kind = "obj" /\ Sens(L[j].key)
-AncSens(L, j)     == \E i \in 1..(j - 1) : SpineSensAt(L, i)          \* the container of level j sits under a sensitive key
-SibId(j) == <<"sib1", "sib2", "sib3", "sib4">>[j]
-KId(j)   == <<"k1", "k2", "k3", "k4">>[j]
-SId(j)   == <<"s1", "s2", "s3", "s4">>[j]
+SensIn(L, lo, hi) == \E i \in lo..hi : SpineSensAt(L, i)
+AncSens(L, j)     == SensIn(L, 1, j - 1)                 \* on the spine path, the container of level j sits under a sensitive key
+SibId(j) == "sib" \o ToString(j)
+KId(j)   == "k" \o ToString(j)
+SId(j)   == "s" \o ToString(j)
+
+\* contents of the container of level x (x = Len+1: the final leaf) are covered by a sensitive spine key above them;
+\* with an alias at level a they are also reachable through a neutral key, so the key of level a no longer covers them
+Cov(c, x) == \E i \in 1..(x - 1) : i # c.alias /\ SpineSensAt(c.levels, i)
 
 Leaves(L)  == {"leaf"} \cup {SibId(j) : j \in {x \in 1..Len(L) : L[x].sib # "none"}}
-Hidden(L)  == (IF \E j \in 1..Len(L) : SpineSensAt(L, j) THEN {"leaf"} ELSE {})
-              \cup {SibId(j) : j \in {x \in 1..Len(L) : L[x].sib # "none" /\ (AncSens(L, x) \/ L[x].sib = "sx")}}
-\* outermost sensitive keys: nothing above them is redacted, so they must still be there, with a redacted value
+\* a leaf is hidden iff it is under a sensitive key on EVERY path that leads to it
+HiddenC(c) == LET L == c.levels IN
+              (IF Cov(c, Len(L) + 1) THEN {"leaf"} ELSE {})
+              \cup {SibId(j) : j \in {x \in 1..Len(L) : L[x].sib # "none" /\
+                                       (L[x].sib = "sx" \/ (IF x <= c.alias THEN AncSens(L, x) ELSE Cov(c, x)))}}
+Hidden(L)  == HiddenC([levels |-> L, alias |-> 0])
+\* outermost sensitive keys on the spine path: nothing above them is redacted, so they must still be there, redacted
 MustShow(L) == {KId(j) : j \in {x \in 1..Len(L) : SpineSensAt(L, x) /\ ~AncSens(L, x)}}
                \cup {SId(j) : j \in {x \in 1..Len(L) : L[x].sib = "sx" /\ ~AncSens(L, x)}}
 \* depth (1 = top level) of the shallowest sensitive key; 0 if there is none
 SensDepth(L) == LET ds == {j \in 1..Len(L) : SpineSensAt(L, j) \/ L[j].sib = "sx"} IN
                 IF ds = {} THEN 0 ELSE CHOOSE j \in ds : \A i \in ds : j <= i
 
-Expected(c) == [hidden |-> Hidden(c.levels), mustshow |-> MustShow(c.levels), sensdepth |-> SensDepth(c.levels),
+Expected(c) == [hidden |-> HiddenC(c), mustshow |-> MustShow(c.levels), sensdepth |-> SensDepth(c.levels),
                 leaves |-> Leaves(c.levels)]
 
-\* what the code does today (Dev_TopLevelOnly): only the top-level keys are looked at
+\* Dev_TopLevelOnly: only the top-level keys are looked at
 HiddenTopLevelOnly(L) == (IF SpineSensAt(L, 1) THEN Leaves(L) \ {"sib1"} ELSE {})
                          \cup (IF L[1].sib = "sx" THEN {"sib1"} ELSE {})
 
@@ -69,37 +108,42 @@ ModelHidden(L) == IF Dev_TopLevelOnly THEN HiddenTopLevelOnly(L) ELSE Hidden(L)
 \* ------------------------------------------------------------------ table sanity
 \* the property itself, stated on the model: holds for the intended design, refuted by TLC with Dev_TopLevelOnly = TRUE
 ModelHidesAllSensitive(c) == Hidden(c.levels) \subseteq ModelHidden(c.levels)
-WellFormed(c)      == Len(c.levels) \in 1..MaxDepth /\ c.levels[1].kind = "obj"
-NeutralHidesNothing(c) == (\A j \in 1..Len(c.levels) : ~SpineSensAt(c.levels, j) /\ c.levels[j].sib # "sx") => Hidden(c.levels) = {}
+WellFormed(c)      == Len(c.levels) \in 1..DeepDepth /\ c.levels[1].kind = "obj" /\ AliasOK(c)
+NeutralHidesNothing(c) == (\A j \in 1..Len(c.levels) : ~SpineSensAt(c.levels, j) /\ c.levels[j].sib # "sx") => HiddenC(c) = {}
 \* flat claims: the oracle is the documented key-by-key redaction
 FlatIsKeyByKey(c)  == Len(c.levels) = 1 =>
-                        Hidden(c.levels) = (IF Sens(c.levels[1].key) THEN {"leaf"} ELSE {}) \cup (IF c.levels[1].sib = "sx" THEN {"sib1"} ELSE {})
-\* a sensitive key hides its whole subtree
-SubtreeHidden(c)   == \A j \in 1..Len(c.levels) : SpineSensAt(c.levels, j) =>
-                        ("leaf" \in Hidden(c.levels) /\ \A i \in (j + 1)..Len(c.levels) : c.levels[i].sib # "none" => SibId(i) \in Hidden(c.levels))
+                        HiddenC(c) = (IF Sens(c.levels[1].key) THEN {"leaf"} ELSE {}) \cup (IF c.levels[1].sib = "sx" THEN {"sib1"} ELSE {})
+\* a sensitive key hides its whole subtree (unless the subtree is also reachable through the neutral alias)
+SubtreeHidden(c)   == \A j \in (1..Len(c.levels)) \ {c.alias} : SpineSensAt(c.levels, j) =>
+                        ("leaf" \in HiddenC(c) /\ \A i \in (j + 1)..Len(c.levels) : c.levels[i].sib # "none" => SibId(i) \in HiddenC(c))
 \* every hidden leaf is covered by a key that stays visible, and nothing is hidden without a sensitive key
-HiddenIffCovered(c) == (Hidden(c.levels) # {}) <=> (MustShow(c.levels) # {})
+HiddenIffCovered(c) == c.alias = 0 => ((HiddenC(c) # {}) <=> (MustShow(c.levels) # {}))
+\* an alias can only make leaves reachable, never hide more
+AliasOnlyReveals(c) == HiddenC(c) \subseteq Hidden(c.levels)
 \* the intended design hides at least what top-level-only redaction hides, and they agree on flat claims
 IntendedCoversTopLevel(c) == HiddenTopLevelOnly(c.levels) \subseteq Hidden(c.levels)
                              /\ (Len(c.levels) = 1 => HiddenTopLevelOnly(c.levels) = Hidden(c.levels))
 
 \* ------------------------------------------------------------------ judging what the real code did
 (* observation o:
-     mode     "default"  the default redactor is installed
-              "raising"  a custom redactor that raises is installed
+     cfg      a member of Configs: how the record was produced
+                mode "default" the default redactor / "raising" a custom redactor that raises
+                level   level of the vgi_rpc.access logger          flavour  dict+list / non-dict Mapping+tuple
+                auth    AuthContext.authenticated                    fmt      formatter ("capped": tiny max_record_bytes)
      emitted  a record was written
+     shed     the formatter's byte cap shed fields of this record (then key visibility cannot be demanded)
      claims   the record has a non-empty `claims` member
      leaked   ids of the leaves whose unique marker occurs anywhere in the serialized line
-     keys     [k1..k4, s1..s4]: "redacted" the key is present at its path and nothing of its subtree is in its value
-                                "verbatim" the key is present and its value still contains a marker of its subtree
-                                "missing"  the key is not at its path            "na" no such key in this tree   *)
+     keys     [k<j>, s<j>]: "redacted" the key is present at its path and nothing of its subtree is in its value
+                            "verbatim" the key is present and its value still contains a marker of its subtree
+                            "missing"  the key is not at its path            "na" no such key in this tree       *)
 Bad(name, cond) == IF cond THEN {} ELSE {name}
 Range(q) == {q[j] : j \in 1..Len(q)}
 
 Conforms(c, o) ==
   LET L == c.levels IN
-  IF o.mode = "raising" THEN
+  IF o.cfg.mode = "raising" THEN
          Bad("FailingRedactorDropsClaims", ~o.claims /\ Range(o.leaked) = {})
-  ELSE   Bad("NoSensitiveValueInLog",      Range(o.leaked) \cap Hidden(L) = {})
-    \cup Bad("SensitiveKeyVisibleRedacted", o.emitted => \A k \in MustShow(L) : o.keys[k] = "redacted")
+  ELSE   Bad("NoSensitiveValueInLog",      Range(o.leaked) \cap HiddenC(c) = {})
+    \cup Bad("SensitiveKeyVisibleRedacted", (o.emitted /\ ~o.shed) => \A k \in MustShow(L) : o.keys[k] = "redacted")
 =====================================================================================
